@@ -158,8 +158,14 @@ func checkC18(c *Check) {
 			}
 			// nothing happens before it
 			allInstrs(fn, func(in ssa.Instruction) {
-				switch in.(type) {
+				switch x := in.(type) {
 				case *ssa.Store, *ssa.Return:
+					if st, isS := x.(*ssa.Store); isS && localRoot(st.Addr) {
+						return // a local of the decoder (arguments prepared for the call), not the decoded value
+					}
+					if _, isR := x.(*ssa.Return); isR && in.Parent() != fn {
+						return // returns of a helper are not returns of the decoder
+					}
 					if !instrDominates(vc[0].(ssa.Instruction), in) && !(in.Block().Index != 0 && len(in.Block().Preds) == 0) {
 						okV = false
 					}
